@@ -537,14 +537,16 @@ GMustOffer(d, gs, p) ==
   ELSE UNION {LET f == d.named[k] IN
               IF IsLeaf(f)
               THEN (IF ~f.hidden /\ NameMatches(f, p) /\ ~(SingleUse(f) /\ gs.acc[f.id] # <<>>) THEN {Pref(f)} ELSE {})
+              \* (a word nobody has claimed may be what the positional alternative of the choice takes: then it is given)
+              ELSE IF f.kind = "alt" /\ ~f.hidden /\ HasPosBranch(f) /\ gs.pos # <<>> THEN {}
               ELSE IF f.kind = "alt" /\ ~f.hidden /\ \A it \in BranchLeaves(f) : gs.acc[it.id] = <<>>
               THEN {Pref(it) : it \in {x \in BranchLeaves(f) : ~x.hidden /\ NameMatches(x, p)}}
               ELSE IF f.kind = "alt" /\ ~f.hidden /\ f.arity \in {"one", "opt"}
               THEN \* the branch the user has started: its remaining required items
-                   LET started == {b \in DOMAIN f.branches : \E it \in RangeOf(f.branches[b].fields) : gs.acc[it.id] # <<>>} IN
+                   LET started == {b \in DOMAIN f.branches : \E it \in RangeOf(f.branches[b].fields) : it.kind # "pos" /\ gs.acc[it.id] # <<>>} IN
                    IF Cardinality(started) # 1 THEN {}
                    ELSE LET b == CHOOSE x \in started : TRUE IN
-                        {Pref(it) : it \in {x \in RangeOf(f.branches[b].fields) : ~x.hidden /\ NameMatches(x, p) /\ gs.acc[x.id] = <<>>}}
+                        {Pref(it) : it \in {x \in RangeOf(f.branches[b].fields) : x.kind # "pos" /\ ~x.hidden /\ NameMatches(x, p) /\ gs.acc[x.id] = <<>>}}
               ELSE {} : k \in DOMAIN d.named}
 GPartials(d) ==
   {[k |-> "fresh"], [k |-> "dash"], [k |-> "long", cs |-> <<>>]}
